@@ -253,6 +253,8 @@ class Proj:
                 opts = []
                 if gap:
                     opts.append("gapduration %s" % fmt_dur(gap))
+                if len(d) > 3 and d[3]:
+                    opts.append("gaplength %s" % fmt_dur(d[3]))
                 if onstart:
                     opts.append("onstart")
                 L.append("%sdepends %s%s" % (i2, ref, " { %s }" % " ".join(opts) if opts else ""))
@@ -300,7 +302,7 @@ class Proj:
                 inh = x.start
                 x = x.parent
             deps = [{"p": tix[id(d[0])], "onstart": bool(d[1]), "gap": int(d[2]), "clone": False, "maxgap": False,
-                     "gaplen": False} for d in t.deps]
+                     "gaplen": bool(len(d) > 3 and d[3])} for d in t.deps]
             for src in prec.get(id(t), []):
                 e = {"p": tix[id(src)], "onstart": False, "gap": 0, "clone": False, "maxgap": False, "gaplen": False}
                 if not any(d["p"] == e["p"] for d in deps):
@@ -447,6 +449,18 @@ def core_dialect(rng, n, max_tasks=7):
                 if st < start:
                     st = None
             ts.append(p.add_task("t%d" % k, effort=effort, alloc=team, deps=deps, prio=prio, start=st))
+        if nt >= 3 and rng.random() < 0.35:
+            # put a prefix of the tasks into a container and let later tasks depend on the container
+            box = Task("box")
+            cut = rng.randint(1, nt - 2)
+            inside = ts[:cut]
+            for t in inside:
+                t.parent = box
+                box.kids.append(t)
+            p.tasks.insert(0, box)
+            for t in ts[cut:]:
+                if rng.random() < 0.5 and not any(d[0] in inside for d in t.deps):
+                    t.deps.append((box, False, rng.choice([0, 0, G])))
         out.append(("core%04d" % i, p))
     return out
 
@@ -859,9 +873,10 @@ NASTY = ["rev", "a", "ab", "abc", "task", "t", "t1", "t10", "x_rev", "Rev2", "en
          "milestone_", "depends_", "m", "mm", "_a", "A", "aA", "z9", "shift_", "proj"]
 
 
-def renamed(p, rng):
+def renamed(p, rng, reuse_across_parents=False):
     """Consistent renaming of task / resource / shift identifiers (names that are prefixes of each other,
-    contain 'rev', differ only in case ...)."""
+    contain 'rev', differ only in case ...).  With reuse_across_parents the same leaf id is used again
+    under different containers (ids only have to be unique among siblings)."""
     q = clone(p)
     pool = list(NASTY)
     rng.shuffle(pool)
@@ -893,10 +908,30 @@ def renamed(p, rng):
             r.shift = newshifts[r.shift]
     # tasks: unique among siblings is enough, but keep them globally unique to allow absolute references by first id
     tglob = set()
-    for t in q.tasks:
+    if not reuse_across_parents:
+        for t in q.tasks:
+            n = fresh(tglob)
+            tglob.add(n)
+            t.name = n
+        return q
+    # top-level ids stay distinct from every nested id (an absolute path starts at a top-level task);
+    # below that, every container starts again with the same short list
+    tops = [t for t in q.tasks if t.parent is None]
+    for t in tops:
         n = fresh(tglob)
         tglob.add(n)
         t.name = n
+    inner_pool = [n for n in pool if n not in tglob]
+
+    def walk(c):
+        used_here = set()
+        for k in c.kids:
+            n = next((x for x in inner_pool if x not in used_here), None) or "k%d" % len(used_here)
+            used_here.add(n)
+            k.name = n
+            walk(k)
+    for t in tops:
+        walk(t)
     return q
 
 
@@ -994,7 +1029,8 @@ def infeasible(rng, n):
         nt = rng.randint(2, 6)
         cont = p.add_task("box") if rng.random() < 0.4 else None
         for k in range(nt):
-            kind = rng.choice(["plain", "plain", "never", "zero", "huge", "noalloc", "late", "early_end", "ms", "group"])
+            kind = rng.choice(["plain", "plain", "never", "zero", "huge", "noalloc", "late", "early_end", "late_end", "ms", "group", "preleave",
+                               "alt_never", "alt_huge", "alt_late"])
             kw = dict(effort=G * rng.randint(1, 9), alloc=[rng.choice(rs)])
             if kind == "never":
                 kw["alloc"] = [never]
@@ -1009,6 +1045,23 @@ def infeasible(rng, n):
             elif kind == "early_end":
                 kw["end"] = start + timedelta(hours=rng.choice([1, 10]))
                 kw["mode"] = "alap"
+            elif kind == "alt_never":
+                kw["alloc"] = [never]
+                kw["alt"] = [rng.choice(rs)]
+            elif kind == "alt_huge":
+                kw["effort"] = 3600 * rng.choice([60, 400, 900])
+                kw["alt"] = [never] if rng.random() < 0.5 else [rng.choice(rs)]
+            elif kind == "alt_late":
+                late = p.add_res("late%d" % k, leaves=[(start, start + timedelta(days=rng.choice([6, 13, 20])))])
+                kw["alloc"] = [late]
+                kw["alt"] = [rng.choice(rs)]
+                kw["effort"] = 3600 * rng.choice([8, 40, 80])
+            elif kind == "late_end":
+                kw["end"] = start + timedelta(days=rng.choice([40, 400]))
+                kw["mode"] = "alap"
+            elif kind == "preleave":
+                pre = p.add_res("pre%d" % k, leaves=[(start - timedelta(days=rng.choice([3, 40, 700])), start + timedelta(days=rng.choice([1, 3])))])
+                kw["alloc"] = [pre]
             elif kind == "ms":
                 kw = dict(effort=0, alloc=[], milestone=True)
             elif kind == "group":
@@ -1022,7 +1075,10 @@ def infeasible(rng, n):
                 t.deps.append((t, False, 0))                       # self
             elif x < 0.55 and len(ts) > 1:
                 u = rng.choice([u for u in ts if u is not t])
-                t.deps.append((u, rng.random() < 0.2, rng.choice([0, G, 86400 * 30])))
+                if rng.random() < 0.2:
+                    t.deps.append((u, False, 0, 3600 * rng.choice([4, 40, 400])))      # gaplength (working time)
+                else:
+                    t.deps.append((u, rng.random() < 0.2, rng.choice([0, G, 86400 * 30])))
         if len(ts) >= 2 and rng.random() < 0.4:
             a, b = rng.sample(ts, 2)
             a.deps.append((b, False, 0))
@@ -1043,7 +1099,7 @@ def corruptions(text, rng, k):
     lines = text.splitlines()
     out = []
     for _ in range(k):
-        kind = rng.choice(["del", "dup", "swap", "trunc", "brace", "num", "date", "word", "macro"])
+        kind = rng.choice(["del", "dup", "swap", "trunc", "brace", "num", "date", "word", "macro", "nodur"])
         if kind in ("del", "dup", "swap") and len(toks) > 3:
             t = list(toks)
             i = rng.randrange(len(t) - 1)
@@ -1077,7 +1133,64 @@ def corruptions(text, rng, k):
             if ms:
                 m = rng.choice(ms)
                 out.append((kind, text[:m.start()] + rng.choice(["precedes", "duration", "length", "scheduling alap", "flags", "", "milestone"]) + text[m.end():]))
+        elif kind == "nodur":
+            out.append((kind, re.sub(r'(project\s+\S+\s+"[^"]*"\s+\S+)\s+\+\d+[dwmy]', r'\1', text, count=1)))
         elif kind == "macro":
             out.append((kind, text + rng.choice(["\n${undefined_macro}\n", "\nmacro loop [ ${loop} ]\n${loop}\n", "\nmacro a [ ${b} ]\nmacro b [ ${a} ]\ntask zz \"zz\" { ${a} }\n",
                                                  "\nmacro big [ ${big} ${big} ]\n${big}\n"])))
+    return out
+
+
+
+def dup_leaf_ids(rng, n):
+    """C15 / C18: the same leaf id under different containers; a join task whose predecessors are the
+    namesakes (as depends or precedes), so that confusing ids for full ids changes the schedule."""
+    out = []
+    for i in range(n):
+        G = 3600
+        p = Proj(start=datetime(2025, 1, 6), G=G, length="+6w")
+        rs = [p.add_res("r%d" % k) for k in range(rng.randint(2, 3))]
+        names = rng.sample(["build", "test", "doc", "impl"], rng.randint(1, 3))
+        conts = [p.add_task(c) for c in rng.sample(["hw", "sw", "fw", "ops"], rng.randint(2, 3))]
+        kids = {}
+        for c in conts:
+            for nm in names:
+                kids[(c.name, nm)] = p.add_task(nm, parent=c, effort=G * rng.randint(2, 40), alloc=[rng.choice(rs)])
+        join = p.add_task("integrate", effort=G * rng.randint(4, 16), alloc=[rng.choice(rs)])
+        nm = rng.choice(names)
+        for c in conts:
+            if rng.random() < 0.5:
+                kids[(c.name, nm)].precedes.append(join)
+            else:
+                join.deps.append((kids[(c.name, nm)], False, 0))
+        out.append(("dup%04d" % i, p))
+    return out
+
+
+
+def container_gate(rng, n):
+    """C07 / C09 / C04 (core dialect): a high-priority task waits for a container whose children have no
+    dependencies of their own, while lower-priority independent tasks compete for the same resource."""
+    out = []
+    for i in range(n):
+        G = rng.choice([3600, 1800])
+        p = Proj(start=datetime(2025, 1, 6), G=G, length="+6w")
+        rs = [p.add_res("r%d" % k) for k in range(rng.randint(1, 2))]
+        box = p.add_task("build")
+        inner = None
+        if rng.random() < 0.4:
+            inner = p.add_task("stage", parent=box)
+        for k in range(rng.randint(1, 3)):
+            p.add_task("c%d" % k, parent=inner if (inner and rng.random() < 0.6) else box, effort=G * rng.randint(1, 10),
+                       alloc=[rng.choice(rs)], prio=rng.choice([None, 500, 600]))
+        if inner is not None and not inner.kids:
+            p.add_task("cx", parent=inner, effort=G * 2, alloc=[rs[0]])
+        rel = p.add_task("release", effort=G * rng.randint(2, 12), alloc=[rng.choice(rs)], prio=rng.choice([800, 900]),
+                         deps=[(box, False, rng.choice([0, 0, G]))])
+        if rng.random() < 0.5:
+            grp = p.add_task("post", deps=[(box, False, 0)])
+            p.add_task("notes", parent=grp, effort=G * rng.randint(1, 6), alloc=[rng.choice(rs)], prio=700)
+        for k in range(rng.randint(1, 3)):
+            p.add_task("chore%d" % k, effort=G * rng.randint(4, 30), alloc=[rng.choice(rs)], prio=rng.choice([300, 400]))
+        out.append(("gate%04d" % i, p))
     return out
